@@ -28,6 +28,17 @@ const PIECES: &[&str] = &[
     "\t", "#", "## Heading", "Setext", "<div>html</div>", "&amp;", "term\n---    : definition", "|", "`", "*", "_", "[", "](",
     ".. _target:", "`link`_", "`text <http://x>`__", "|subst|", "::", "text::", "+---+---+", "| x | y |", "======= =====",
     "[^1]", "[^1]: note", "{#id .class}", "$", "\\", "--", "---", "----",
+    // nested emphasis and emphasis around code spans
+    "*outer **inner** outer*", "**bold `code` bold**", "*`code`*", "_a *b* c_", "**a *b `c` d* e**", "***x** y*",
+    "*a `b` c* d **e**", "__u _v_ w__", "**`x`**", "*em **strong `code`** em*", "`code *not em*`", "*a* **b** `c` *d*",
+];
+
+/// single-paragraph descriptions (no block construct, hence no Scope item): nested emphasis, emphasis around
+/// code spans, several inline constructs in a row
+const PARAGRAPHS: &[&str] = &[
+    "*outer **inner** outer*", "**bold `code` bold** and *em*", "*`code`* then **`x`**", "**a *b `c` d* e**",
+    "text *a `b` c* d **e** `f`", "_a *b* c_ __d__", "***x** y* z", "*a* **b** `c` *d* **e**", "**s *e `c` e* s** tail `t`",
+    "{lua:obj}`a.b` *em* **st**", ":lua:obj:`a.b` *em* **st**", "see `a.b` and *`c`* [l](u) **x**",
 ];
 
 const TAGS: &[&str] = &[
@@ -37,6 +48,20 @@ const TAGS: &[&str] = &[
 
 fn gen_source(rng: &mut Rng) -> String {
     let mut s = String::new();
+    if rng.chance(1, 5) {
+        // one or two plain paragraph lines only
+        for _ in 0..rng.range(1, 2) {
+            s.push_str("--- ");
+            s.push_str(*rng.pick(PARAGRAPHS));
+            if rng.chance(1, 2) {
+                s.push(' ');
+                s.push_str(*rng.pick(PARAGRAPHS));
+            }
+            s.push('\n');
+        }
+        s.push_str("local x = 1\n");
+        return s;
+    }
     if rng.chance(1, 6) {
         s.push_str("local a = 1\n");
     }
@@ -297,6 +322,14 @@ fn run_source(text: &str, only: Option<(usize, &str, Option<usize>)>, rng: &mut 
                 }
                 if let Some(items) = items {
                     report.add("items_total", items.len() as u64);
+                    if items.len() >= 2 && !items.iter().any(|i| i.kind == DescItemKind::Scope) {
+                        report.count(if cursor.is_none() { "outputs_without_scope_2plus_items_no_cursor" } else { "outputs_without_scope_2plus_items_cursor" });
+                        // does the order of this output depend on the final sort? (items not already in emission order
+                        // cannot be observed from outside; count nesting instead)
+                        if items.windows(2).any(|w| w[0].range.start() == w[1].range.start() || w[1].range.end() <= w[0].range.end()) {
+                            report.count("outputs_without_scope_nested_or_same_start");
+                        }
+                    }
                     if !items.is_empty() {
                         for it in &items {
                             report.count(&format!("kind_{}", kind_num(&it.kind).min(10)));
@@ -392,6 +425,10 @@ pub fn run(args: &Args, report: &mut Report) {
     let n = if args.thorough() { 12_000 } else { 400 };
     synthetic(&mut rng, if args.thorough() { 40_000 } else { 4_000 }, report);
     // fixed corner cases first
+    for p in PARAGRAPHS {
+        run_source(&format!("--- {p}\nlocal x"), None, &mut rng, report, &mut seen);
+        run_source(&format!("---@param x integer {p}\nlocal function f(x) end"), None, &mut rng, report, &mut seen);
+    }
     for t in [
         "--- a\n", "---", "--", "------\n--- x\n------\n", "---@param x integer `unterminated\nlocal x", "--- ```lua\n--- local x = 1", "---\t*a\n---\t *b",
         "--- 中文 `代码` **粗**\n", "---   indented\n---  less\n--- least\n", "--- :lua:func:`a.b", "--- {@link a", "----\n----\n", "--- x\r\n--- y\r\n",
